@@ -10,6 +10,8 @@ package main
 
 import (
 	"bufio"
+	"errors"
+	"math"
 	"bytes"
 	"encoding/json"
 	"flag"
@@ -38,15 +40,24 @@ type val struct {
 // rec is the value type of the TYPED store: both members are omitted from the stored JSON
 // document when empty, so stored documents have differing member sets.
 type rec struct {
-	A string `json:"A,omitempty"`
-	B string `json:"B,omitempty"`
+	A string  `json:"A,omitempty"`
+	B string  `json:"B,omitempty"`
+	C float64 `json:"C,omitempty"` // NaN makes the value unencodable (json.Marshal fails); never set otherwise
+}
+
+// unencodable is a value of the store's type that setValue cannot marshal.
+func unencodable(untyped bool, a, b string) interface{} {
+	if !untyped {
+		return rec{a, b, math.NaN()}
+	}
+	return map[string]interface{}{"A": a, "B": b, "C": math.NaN()}
 }
 
 // mkVal builds the value handed to the store: a rec, or for the UNTYPED (default
 // map[string]interface{}) store a record holding only the non-empty members.
 func mkVal(untyped bool, a, b string) interface{} {
 	if !untyped {
-		return rec{a, b}
+		return rec{A: a, B: b}
 	}
 	m := map[string]interface{}{}
 	if a != "" {
@@ -85,6 +96,10 @@ type op struct {
 	A     string `json:"a,omitempty"`
 	B     string `json:"b,omitempty"`
 	Seeds []seed `json:"seeds,omitempty"`
+	// init only: make the call fail although the seed ids are fine - "type": one added value has the
+	// wrong type; "cberr": the callback returns an error after adding every seed; "unenc": the
+	// middle seed cannot be encoded.  (Empty / duplicate ids are simply part of Seeds.)
+	Fail string `json:"fail,omitempty"`
 }
 
 var points = []string{"", "create-before", "create-committed", "update-before", "update-committed",
@@ -119,7 +134,9 @@ func openStore(dir, prefix string, nidx int, untyped, noqs bool) (*badger.DB, *b
 		return &badgerstore.IndexQuery{Index: qs.Index(q.Get("idx")), KeyPrefix: []byte(q.Get("kp")), Limit: -1}, nil
 	})
 	// ia: member A, never nil (an absent member gives the empty key); ib: member B, nil when absent/empty
-	qs.AddIndex(badgerstore.Index{Name: "ia", Key: func(v interface{}) []byte { return []byte(member(v, "A")) }})
+	if nidx >= 1 {
+		qs.AddIndex(badgerstore.Index{Name: "ia", Key: func(v interface{}) []byte { return []byte(member(v, "A")) }})
+	}
 	if nidx >= 2 {
 		qs.AddIndex(badgerstore.Index{Name: "ib", Key: func(v interface{}) []byte {
 			if b := member(v, "B"); b != "" {
@@ -167,14 +184,49 @@ func childMain(args []string) {
 	say("READY")
 	for _, o := range ops {
 		var err error
+		nset := 0 // seeds set inside this Init's transaction
 		switch o.K {
 		case "init":
-			err = st.Init(func(add func(id string, v interface{})) error {
+			exists := func() string {
+				var xs []string
 				for _, s := range o.Seeds {
-					add(s.ID, mkVal(*untyped, s.A, s.B))
+					rt := st.Read(s.ID)
+					_, verr := rt.Value()
+					if rt.Exists() != (verr == nil) {
+						xs = append(xs, "!"+s.ID)
+					} else if verr == nil {
+						xs = append(xs, s.ID)
+					}
+					rt.Close()
+				}
+				return strings.Join(xs, ",")
+			}
+			before, h0 := exists(), verifhook.Hits()["init-seed-set"]
+			err = st.Init(func(add func(id string, v interface{})) error {
+				for i, s := range o.Seeds {
+					switch {
+					case o.Fail == "unenc" && i == len(o.Seeds)/2:
+						add(s.ID, unencodable(*untyped, s.A, s.B))
+					case o.Fail == "type" && i == len(o.Seeds)/2:
+						if *untyped {
+							add(s.ID, rec{A: s.A})
+						} else {
+							add(s.ID, map[string]interface{}{"A": s.A})
+						}
+					default:
+						add(s.ID, mkVal(*untyped, s.A, s.B))
+					}
+				}
+				if o.Fail == "cberr" {
+					return errors.New("init callback failed")
 				}
 				return nil
 			})
+			// Value/Exists right after a failed Init: nothing it added may be visible
+			if after := exists(); err != nil && after != before {
+				say("BAD failed Init changed the visible seeds from [" + before + "] to [" + after + "]")
+			}
+			nset = verifhook.Hits()["init-seed-set"] - h0
 		case "create":
 			txn := st.Write(o.ID)
 			err = txn.Create(mkVal(*untyped, o.A, o.B))
@@ -189,9 +241,9 @@ func childMain(args []string) {
 			txn.Close()
 		}
 		if err == nil {
-			say("ok")
+			say("ok " + strconv.Itoa(nset))
 		} else {
-			say("err")
+			say("err " + strconv.Itoa(nset))
 		}
 	}
 	if qs != nil {
@@ -219,6 +271,8 @@ type lifeResult struct {
 	hits    map[string]int
 	dur     time.Duration // READY -> exit
 	fatal   string
+	nset    []int  // per returned call: seeds set inside an Init transaction
+	bad     string // the child's own Value/Exists check after a failed Init
 }
 
 var self string
@@ -286,10 +340,12 @@ func runLife(dbdir, scratch string, n int, prefix string, nidx int, untyped bool
 	clean := false
 	for _, l := range lines {
 		switch {
-		case l == "ok":
-			r.oks = append(r.oks, true)
-		case l == "err":
-			r.oks = append(r.oks, false)
+		case strings.HasPrefix(l, "ok "), strings.HasPrefix(l, "err "):
+			r.oks = append(r.oks, l[0] == 'o')
+			n, _ := strconv.Atoi(l[strings.IndexByte(l, ' ')+1:])
+			r.nset = append(r.nset, n)
+		case strings.HasPrefix(l, "BAD "):
+			r.bad = l[4:]
 		case strings.HasPrefix(l, "HITS "):
 			json.Unmarshal([]byte(l[5:]), &r.hits)
 			clean = true
@@ -462,7 +518,7 @@ func obsTerm(es []entry) string {
 	return List(xs)
 }
 
-func opsTerm(ops []op) string {
+func opsTerm(ops []op, nset []int) string {
 	xs := make([]string, len(ops))
 	for i, o := range ops {
 		switch o.K {
@@ -473,6 +529,18 @@ func opsTerm(ops []op) string {
 		case "delete":
 			xs[i] = "Delete " + B(o.ID)
 		case "init":
+			if o.Fail != "" {
+				// seeds set before the failure: reported by the child for a call that returned,
+				// otherwise the largest possible number (the model's steps are a prefix of it)
+				n := 0
+				if i < len(nset) {
+					n = nset[i]
+				} else if o.Fail == "unenc" {
+					n = len(o.Seeds) - 1
+				}
+				xs[i] = fmt.Sprintf("InitErr %d%%nat", n)
+				break
+			}
 			ss := make([]string, len(o.Seeds))
 			for j, s := range o.Seeds {
 				ss[j] = "(" + B(s.ID) + "," + V(s.A, s.B) + ")"
@@ -494,7 +562,7 @@ func runTerm(ls lifeSpec, r lifeResult, es []entry) string {
 			hs = append(hs, fmt.Sprintf("(%d,%d)", i, n))
 		}
 	}
-	return fmt.Sprintf("CR %s %d %d %s %s %s %s", opsTerm(ls.Ops), r.pt, r.occ, List(oks), List(hs), Bool(ls.NoQS), obsTerm(es))
+	return fmt.Sprintf("CR %s %d %d %s %s %s %s", opsTerm(ls.Ops, r.nset), r.pt, r.occ, List(oks), List(hs), Bool(ls.NoQS), obsTerm(es))
 }
 
 // ---------------------------------------------------------------- parent: one case = one directory
@@ -536,6 +604,9 @@ func runJob(d jobDesc) (jo jobOut) {
 		if r.fatal != "" {
 			fail("lifetime " + strconv.Itoa(n) + ": " + r.fatal)
 			return
+		}
+		if r.bad != "" {
+			fail("lifetime " + strconv.Itoa(n) + ": " + r.bad)
 		}
 		if r.pt == 0 {
 			jo.stats["life-clean"]++
@@ -711,11 +782,33 @@ func genOps(r *Rng, live map[string]val, seeds []seed, n int, forceSeedDelete bo
 	return ops
 }
 
+// failingInits returns Init calls that must fail and change nothing: k of the six kinds, starting at kind k0.
+func failingInits(seeds []seed, k0, k int) []op {
+	mid := len(seeds) / 2
+	emptyID := append([]seed{}, seeds...)
+	emptyID[mid].ID = ""
+	dup := append(append([]seed{}, seeds...), seed{seeds[0].ID, "z", "u"})
+	all := []op{
+		{K: "init", Seeds: seeds, Fail: "unenc"},
+		{K: "init", Seeds: seeds, Fail: "type"},
+		{K: "init", Seeds: dup},
+		{K: "init", Seeds: seeds, Fail: "cberr"},
+		{K: "init", Seeds: emptyID},
+		{K: "init", Seeds: seeds, Fail: "unenc"},
+	}
+	var out []op
+	for i := 0; i < k; i++ {
+		out = append(out, all[(k0+i)%len(all)])
+	}
+	return out
+}
+
 type workload struct {
 	prefix     string
 	nidx       int
 	untyped    bool
 	kind       string // "" = Init first on an empty database
+	fails      []op   // failing Init calls placed before the first good Init
 	ops1, ops2 []op
 }
 
@@ -791,7 +884,16 @@ func genWorkload(r *Rng, w int, thorough bool) workload {
 		wl.ops2 = []op{initOp, {K: "delete", ID: "zz"}, {K: "update", ID: "zz", A: "x"}}
 		return wl
 	case 0:
-		wl.ops1 = append([]op{initOp}, genOps(r, live, seeds, n, true)...)
+		// failing Inits first (nothing may be seeded, no marker), then the good one; one more failing
+		// call later, when the marker makes Init return nil before it looks at anything
+		nf := 3
+		if thorough {
+			nf = r.Intn(4)
+		}
+		wl.fails = failingInits(seeds, 3*(w%2)+r.Intn(2)*2*map[bool]int{true: 1, false: 0}[thorough], nf)
+		body := genOps(r, live, seeds, n, true)
+		wl.ops1 = append(append(append([]op{}, wl.fails...), initOp), body...)
+		wl.ops1 = append(wl.ops1, op{K: "init", Seeds: seeds, Fail: "cberr"})
 	case 1:
 		all := !thorough || r.Bool()
 		var pre []op
@@ -907,6 +1009,16 @@ func main() {
 						[]lifeSpec{{Ops: wl.ops1, Kill: fmt.Sprintf("%s:%d", points[pi], n)}, l2}})
 					dist["kill-pairs-enumerated"]++
 				}
+			}
+			// a QueryStore without any index: RebuildIndexes has nothing to do
+			if w < 2 || thorough && w%7 == 0 {
+				descs = append(descs, jobDesc{wl.prefix, 0, wl.untyped, []lifeSpec{{Ops: wl.ops1, Kill: "update-committed:1"}, {Ops: wl.ops2}}})
+			}
+			// a lifetime of failing Inits only (the database must stay empty), then the normal one
+			if len(wl.fails) > 0 {
+				descs = append(descs, jobDesc{wl.prefix, wl.nidx, wl.untyped, []lifeSpec{{Ops: wl.fails}, {Ops: wl.ops1}}},
+					jobDesc{wl.prefix, wl.nidx, wl.untyped, []lifeSpec{{Ops: wl.fails, Kill: "init-seed-set:1"}, {Ops: wl.ops1, Kill: "init-seed-set:2"}, {Ops: wl.ops2}}})
+				dist["workloads-with-failing-Inits-before-the-good-one"]++
 			}
 			// killed inside Init again and again, then a clean lifetime
 			descs = append(descs, jobDesc{wl.prefix, wl.nidx, wl.untyped, []lifeSpec{
